@@ -98,7 +98,7 @@ fn main() {
         ("gen", "C11") => { c11::generate(seed, &tier, &mut out); c04::generate_exits("C11", seed, &tier, &mut out) }
         ("gen", "C17") => c17::generate(seed, &tier, &mut out),
         ("gen", "C19") => c19::generate(seed, &tier, &mut out),
-        ("gen", "C15") => c15::generate(seed, &tier, &mut out),
+        ("gen", "C15") => { c15::generate(seed, &tier, &mut out); c01::generate("C15", seed, &tier, &mut out) }
         ("gen", "C13") => c13::generate(seed, &tier, &mut out),
         ("gen", "C09") => { c09::generate("C09", seed, &tier, &mut out); c01::generate("C09", seed, &tier, &mut out) }
         ("gen", "C10") => { c09::generate("C10", seed, &tier, &mut out); c01::generate("C10", seed, &tier, &mut out) }
